@@ -789,6 +789,9 @@ GENERATORS = {"C10": gen_c10, "C12": gen_c12, "C17": gen_c17, "C19": gen_c19}
 def generate(prop: str, run_seed: int, tier: str) -> Plan:
     rng = random.Random(run_seed)
     plan = GENERATORS[prop](rng, tier)
+    if rng.random() < 0.1:
+        # the process has compiled something under the other default dtype before
+        plan["ops"].insert(0, {"op": "dtype_prelude", "seed": _seed(rng)})
     plan["prop"] = prop
     plan["run_seed"] = run_seed
     plan["tier"] = tier
